@@ -37,7 +37,7 @@ CLAIMED = {
         technique="Lean 4 proof (case analysis over the four recorded keys) + regenerated call order + differential correspondence incl. the public start()",
         ref="DESIGN.md §6 C20"),
     "C16": dict(
-        text="Lean theorems: allowance = min(12000*len, u64::MAX), monotone, inverse conversion for parked transactions; for an ARBITRARY success predicate the bisection terminates within 64 simulations, returns a figure in [21000, cap] at which the confirmation run succeeded, and always returns one when the cap run succeeds; for monotone predicates ceil(g/12000) bytes suffice and g is within 12000 of the least sufficient limit; constants regenerated from the source; tie: gas arithmetic compared with the real functions (suite C `gas` lines), and every eth_estimateGas of suite E is checked against its recorded EVM probes (confirmation run at the returned figure, bounds, <= 66 simulations)",
+        text="Lean theorems: allowance = min(12000*len, u64::MAX), monotone, inverse conversion for parked transactions; for an ARBITRARY success predicate the bisection terminates within 64 simulations, returns a figure in [21000, cap] at which the confirmation run succeeded, and always returns one when the cap run succeeds; for monotone predicates ceil(g/12000) bytes suffice and g is within 12000 of the least sufficient limit; constants regenerated from the source; tie: gas arithmetic compared with the real functions (suite C `gas` lines), and every eth_estimateGas of suite E is checked against its recorded EVM probes (confirmation run at the returned figure, bounds, <= 66 simulations); a call whose single recorded run failed and whose recorded writes pass the driver's discipline leaves storage and code unchanged for every key and accounts unchanged except sender and coinbase (frame theorem over the recorded writes); oracle on the real code: storage and code tables before = after every transaction with status 0",
         note="trusted: Lean kernel (+ propext); revm's gas accounting is a parameter (gasUsed <= gasLimit and monotonicity are assumptions stated in the theorems, exercised but not proved)",
         technique="Lean 4 proof (loop invariant + halving measure for the bisection, arithmetic) + differential correspondence + recorded-probe check",
         ref="DESIGN.md §6 C16"),
@@ -57,9 +57,9 @@ CLAIMED = {
         technique='Lean 4 proof (simulation preserved by commit/clear) + schedule twins',
         ref="DESIGN.md §6 C03"),
     "C05": dict(
-        text='Lean: every error response of add-tx / transact / finalise / commit / reorg / initialise(genesis,height) / mine (for every node: after its pre-checks the loop cannot answer an error) returns the node unchanged; each protocol rule (index, timestamp, hash, count, existing block, mid-block commit/reorg) is refused; tie: model predicts the response class of every call incl. injected violations; the real state digest must be unchanged after every error response',
+        text='Lean: every error response of add-tx / transact / finalise / commit / reorg / initialise(genesis,height) / mine (for every node: after its pre-checks the loop cannot answer an error) returns the node unchanged; each protocol rule (index, timestamp, hash, count, existing block, mid-block commit/reorg) is refused; tie: model predicts the response class of every call incl. injected violations; the real state digest must be unchanged after every error response; every error of brc20_initialise is a no-op (no side condition); for every node and every protocol line an err answer of the driver transition function leaves the node unchanged, and for every history the sub-history of the accepted lines ends in the same node with the same answers (induction over histories)',
         note='trusted: Lean kernel (+ propext, Classical.choice, Quot.sound); revm, hashes and RocksDB as parameters; the hooks (EVM recorder, table-write events, state probe) and the harness; see DESIGN.md §3',
-        technique='Lean 4 proof (case analysis of the engine model) + response-class correspondence + before/after digests',
+        technique='Lean 4 proof (case analysis of the engine model, induction over histories of the driver transition function) + response-class correspondence + before/after digests',
         ref="DESIGN.md §6 C05"),
     "C06": dict(
         text='Lean: for EVERY reachable state the three block tables hold rows for exactly the numbers below the next height (gap-free, together, also mid-block and on disk) and the heights are read off the hash table; accepted finalise creates exactly the next height with hash row, block rows, inverse index; counts exact; indexes consecutive; log index and cumulative gas are running sums; tie: coherence oracle over the real chain at every block boundary (parent hashes, hash<->number, tx/receipt/(block,index)/inscription lookups, log indexes, cumulative gas, receipts returned = receipts served)',
@@ -72,24 +72,24 @@ CLAIMED = {
         technique='Lean 4 proof (classification + drain plan) + reference pool + correspondence',
         ref="DESIGN.md §6 C08"),
     "C10": dict(
-        text='Lean: a read step returns the node it was given and is answered ok only if no table write / persistent write / committing run / DatabaseCommit entry was recorded; reads are removable from any history; tie: every read (incl. eth_call / estimate running state-changing code) is checked on the real code: recorded events, state digest before/after, and a twin that never sees the reads',
+        text='Lean: a read step returns the node it was given and is answered ok only if no table write / persistent write / committing run / DatabaseCommit entry was recorded; reads are removable from any history; tie: every read (incl. eth_call / estimate running state-changing code) is checked on the real code: recorded events, state digest before/after, and a twin that never sees the reads; for every history of protocol lines, deleting all read lines leaves the final node and the answers of all other lines unchanged (induction over histories of the driver transition function)',
         note='trusted: Lean kernel (+ propext, Classical.choice, Quot.sound); revm, hashes and RocksDB as parameters; the hooks (EVM recorder, table-write events, state probe) and the harness; see DESIGN.md §3',
-        technique='Lean 4 proof (identity of the read step) + event recorder + read-free twin',
+        technique='Lean 4 proof (identity of the read step, induction over histories) + event recorder + read-free twin',
         ref="DESIGN.md §6 C10"),
     "C17": dict(
-        text="Lean: the recorded simulation environment and the next transaction's environment agree on number, fees, value, coinbase; the simulation uses the caller's account nonce; tie: model checks every recorded simulation environment; on the real code each deploy/call at a block boundary is preceded by an eth_call whose status/output (runtime code for creations) must equal the transaction's",
+        text="Lean: the recorded simulation environment and the next transaction's environment agree on number, fees, value, coinbase; the simulation uses the caller's account nonce; tie: model checks every recorded simulation environment; on the real code each deploy/call at a block boundary is preceded by an eth_call whose status/output (runtime code for creations) must equal the transaction's; block gas limit included; the nonce bookkeeping of multi-call simulations hands out account nonce + earlier calls of the same caller (any caller list), an accepted round saw height / fees / that nonce call by call; for every EVM function ignoring timestamp, randomness, gas limit and txid the simulation outcome equals the transaction outcome; tie: the recorded environment of every simulation (eth_call, estimate probes, balance, prediction calls, every round of callMany / estimateGasMany) is sent to the model; oracle prediction-env compares simulation and transaction environments field by field",
         note='trusted: Lean kernel (+ propext, Classical.choice, Quot.sound); revm, hashes and RocksDB as parameters; the hooks (EVM recorder, table-write events, state probe) and the harness; see DESIGN.md §3',
-        technique='Lean 4 proof (environment agreement) + eth_call/transaction pairing oracle',
+        technique='Lean 4 proof (environment agreement, induction over caller lists, congruence for any EVM function) + recorded-environment correspondence + eth_call/transaction pairing oracles',
         ref="DESIGN.md §6 C17"),
     "C18": dict(
-        text='Lean: result = in-range logs filtered (sublist, exact membership), range rule as an iff under heights < 2^63, defaults, positional filter semantics (wildcard, equality, any-of, beyond-topics fails); tie: eth_getLogs with random address/topic filters and ranges (reversed, too wide, single) compared with a reference filter over the receipts, finalised or in the block under construction',
+        text='Lean: result = in-range logs filtered (sublist, exact membership), range rule as an iff under heights < 2^63, defaults, positional filter semantics (wildcard, equality, any-of, beyond-topics fails); tie: eth_getLogs with random address/topic filters and ranges (reversed, too wide, single) compared with a reference filter over the receipts, finalised or in the block under construction; the answer is also compared with a replica rebuilt by fresh replay after every reorg (independent of index rows)',
         note='trusted: Lean kernel (+ propext, Classical.choice, Quot.sound); revm, hashes and RocksDB as parameters; the hooks (EVM recorder, table-write events, state probe) and the harness; see DESIGN.md §3',
         technique='Lean 4 proof (filter semantics, range arithmetic) + reference filter oracle',
         ref="DESIGN.md §6 C18"),
     "C19": dict(
-        text="Lean: an accepted call's runs all saw number = height being built, supplied timestamp, supplied/generated hash as randomness, zero fees, and the first run the supplied txid; tie: the model refuses recorded environments that differ; a probe contract stores NUMBER..BLOCKHASH and the 0xfa txid, read back through eth_getStorageAt and compared with what was sent",
+        text="Lean: an accepted call's runs all saw number = height being built, supplied timestamp, supplied/generated hash as randomness, zero fees, and the first run the supplied txid; tie: the model refuses recorded environments that differ; a probe contract stores NUMBER..BLOCKHASH and the 0xfa txid, read back through eth_getStorageAt and compared with what was sent; what the current-txid helper answers is a function of the network and the execution height alone (supplied txid under Prague, nothing before; parking height irrelevant; no collision under the RLP-hash rule); tie: transactions executed before, across and after the real signet and mainnet activation heights on the real engine (parked and drained included), every observation answered by the model; known finding F21 (legacy signing-hash collision on mainnet 923369..928999) reproduced by the model",
         note='trusted: Lean kernel (+ propext, Classical.choice, Quot.sound); revm, hashes and RocksDB as parameters; the hooks (EVM recorder, table-write events, state probe) and the harness; see DESIGN.md §3',
-        technique='Lean 4 proof (environment check) + context probe contract',
+        technique='Lean 4 proof (environment check, fork-rule case analysis) + context probe contract + activation-height scenario on the real engine',
         ref="DESIGN.md §6 C19"),
     "C11": dict(
         text="Failing-input search: suite D runs reader threads over every read method against one or two indexer threads on the real engine in a child process and reports when all threads are stuck. Lean theorem: under writer-preferring read-write locks, any number of threads running programs that never re-acquire a held lock, acquire in strictly increasing rank and release what they acquire can never be stuck (unbounded threads and schedules; invariant + maximal-rank argument), every step decreases a measure, and the two hazards (re-entrant read with a queued writer, order inversion) are proved to deadlock; tie: the lock programs of every RPC method are recorded from the running code on every run (tracer hook), translated into Gen/LockTraces.lean with a proposed order, and every program is re-checked against the discipline by kernel `decide`",
